@@ -468,6 +468,14 @@ def weave_body(body, d, fname):
         if col < 0:
             raise ExtractError('%s: loop brace position confusion' % fname)
         lines[j] = lines[j][:col] + '\n' + '\n'.join(text) + '\n' + lines[j][col:]
+    if close_txt:
+        # place the closing proof text before a tail expression (e.g. `Ok(())`), else at the very end
+        last = len(lines) - 1
+        while last >= 0 and not lines[last].strip():
+            last -= 1
+        if last >= 0 and not re.search(r'[;}]\s*$', lines[last]) and not lines[last].lstrip().startswith('//'):
+            inserts_before.setdefault(last, []).extend(close_txt)
+            close_txt = []
     out = []
     out += open_txt
     for i, l in enumerate(lines):
